@@ -72,6 +72,13 @@ PROPS = {
         "trusted_base": TB_ALGEBRA,
         "hypotheses": [X_NONID, "X-DSEP (explicit): hashing under two distinct tags gives two distinct points"],
     },
+    "C10": {
+        "units": [gen("C10")],
+        "trusted_base": TB_ALGEBRA + ["A-TIME: SystemTime/Duration are integers; now() is arbitrary but not before the epoch; duration_since is Err exactly when the argument is later",
+                                      "BlsSignatureProof::compute_y is NOT verified (mutable sub-slice copies are outside the Verus subset): its contract res == H(enc(u) || le64(t), SALT) is assumed"],
+        "hypotheses": [X_NONID, "X-LIN: the response point v = -(x'+y)*sig is not the identity (x'+y != 0)", "X-RO: another timestamp gives another derived challenge"],
+        "not_decided": ["'rejected once the timeout has elapsed' is proved as: Ok implies the equation for the derived challenge, and the elapsed-time comparison is part of the verified body; the wall clock itself is an arbitrary value"],
+    },
 }
 
 NOT_APPLICABLE = {
